@@ -21,7 +21,7 @@ func TestVerifC11Race(t *testing.T) {
 	v := verifNew("C11race")
 	for _, name := range []string{crypto.NameEDDSA, crypto.NameECDSA} {
 		w := c11NewWorld(t, name, "", []hotstuff.ID{1, 2, 3, 4})
-		c11Block = w.block
+		c11Block, c11Blocks = w.block, w.blocks
 		w.concurrent(v, 12, 8, 30)
 	}
 	v.Close("concurrent callers of one cached authority under the race detector")
